@@ -916,6 +916,24 @@ func (g *gen) boolean(d int) any {
 	case 4:
 		return g.naryN(g.pick("eq", "==", "equal", "neq", "!=").(string), 2, d, g.any)
 	case 5:
+		if g.r.Intn(2) == 0 {
+			// equality over structured values: a small tree against a copy with one point changed
+			// (a key renamed, a member nulled, dropped or added, a number's kind changed), as
+			// literals, through eq/neq and through include
+			x := g.tree(2)
+			y := g.perturb(dup(x))
+			if g.r.Intn(2) == 0 {
+				x, y = y, x
+			}
+			switch g.r.Intn(3) {
+			case 0:
+				return []any{g.pick("eq", "==", "equal", "neq", "!=").(string), g.lit(x), g.lit(y)}
+			case 1:
+				return []any{"include", []any{"list", g.lit(y), int64(1), g.lit(dup(y))}, g.lit(x)}
+			default:
+				return []any{g.pick("eq", "neq").(string), g.lit(x), g.lit(dup(x)), g.lit(y)}
+			}
+		}
 		x := g.any(d - 1)
 		return []any{g.pick("eq", "neq").(string), x, dup(x)}
 	case 6:
@@ -932,6 +950,91 @@ func (g *gen) boolean(d int) any {
 		return []any{"include", []any{"list", []any{"list", int64(1)}, int64(2), "x"}, g.pick([]any{"list", int64(1)}, int64(2), "x", "y")}
 	}
 }
+
+// tree builds a small JSON-like value with null members and nested containers.
+func (g *gen) tree(d int) any {
+	r := g.r
+	if d <= 0 || r.Intn(3) == 0 {
+		return g.pick(nil, nil, true, int64(r.Intn(3)), g.flt(r.Intn(5), 2), "s", "")
+	}
+	if r.Intn(2) == 0 {
+		out := []any{}
+		for n := r.Intn(3); n > 0; n-- {
+			out = append(out, g.tree(d-1))
+		}
+		return out
+	}
+	out := map[string]any{}
+	for n := r.Intn(4); n > 0; n-- {
+		out[[]string{"id", "note", "memo", "x", "y"}[r.Intn(5)]] = g.tree(d - 1)
+	}
+	return out
+}
+
+// perturb changes one point of v (which it may modify).
+func (g *gen) perturb(v any) any {
+	r := g.r
+	switch t := v.(type) {
+	case map[string]any:
+		keys := make([]string, 0, len(t))
+		for k := range t {
+			keys = append(keys, k)
+		}
+		sort.Strings(keys)
+		if len(keys) == 0 {
+			t["added"] = nil
+			return t
+		}
+		k := keys[r.Intn(len(keys))]
+		switch r.Intn(5) {
+		case 0: // rename the key, keep the value
+			t[k+"2"] = t[k]
+			delete(t, k)
+		case 1: // rename and null (same size, the renamed member is null on both sides or one)
+			delete(t, k)
+			t[k+"2"] = nil
+		case 2:
+			t[k] = nil
+		case 3:
+			delete(t, k)
+		default:
+			t[k] = g.perturb(t[k])
+		}
+		return t
+	case []any:
+		if len(t) == 0 {
+			return append(t, nil)
+		}
+		i := r.Intn(len(t))
+		switch r.Intn(3) {
+		case 0:
+			return append(t[:i:i], t[i+1:]...)
+		case 1:
+			t[i] = nil
+		default:
+			t[i] = g.perturb(t[i])
+		}
+		return t
+	case int64:
+		if r.Intn(2) == 0 {
+			return g.flt(int(t)*2+1, 2)
+		}
+		return t + 1
+	case nil:
+		return g.pick(false, int64(0), "", []any{}, map[string]any{})
+	case bool:
+		return !t
+	case string:
+		return t + "x"
+	case float64:
+		return t + 1
+	}
+	return nil
+}
+
+// lit makes sure a literal array is not read as a function call (its first
+// element is never a function name: the trees contain none).
+func (g *gen) lit(v any) any { return v }
 
 func (g *gen) naryN(name string, n, d int, f func(int) any) any {
 	out := []any{name}
@@ -986,6 +1089,12 @@ func (g *gen) each(d int) any {
 	case 1:
 		fn = []any{"set", "@.asm", g.str(d - 1)}
 	case 2:
+		if g.r.Intn(2) == 0 {
+			// a nested literal used as a template and written into below its first level
+			fn = []any{"asm", []any{"set", "@.asm", map[string]any{"kind": "item", "meta": map[string]any{"seen": false}, "tags": []any{[]any{}}}},
+				[]any{"set", "@.asm.meta.id", g.pick("@.src.id", "@.src.name", "@.src.w")}, []any{"set", "@.asm.tags[0]", g.pick("@.src.name", "@.src.id")}}
+			break
+		}
 		fn = []any{"asm", []any{"set", "@.asm", map[string]any{}}, []any{"set", "@.asm.n", g.str(d - 1)}, []any{"set", "@.asm.v", g.num(d - 1)}}
 	case 3:
 		fn = []any{"set", "@.out", g.any(d - 1)}
@@ -1040,7 +1149,13 @@ func (g *gen) plan() []any {
 		case 0:
 			// structured output with deep targets (constants only below the first level)
 			k := fmt.Sprintf("m%d", g.r.Intn(2))
-			plan = append(plan, []any{"set", "$.asm." + k, map[string]any{}}, []any{"set", "$.asm." + k + ".x.y", g.pick(int64(1), "s", nil, 1.5, []any{int64(1)})})
+			if g.r.Intn(2) == 0 {
+				// nested literal template, values from the source (scalars by construction of the roots)
+				plan = append(plan, []any{"set", "$.asm." + k, map[string]any{"x": map[string]any{"z": int64(1)}, "l": []any{map[string]any{}}}},
+					[]any{"set", "$.asm." + k + ".x.y", g.pick("$.src.i", "$.src.s", "$.src.f")}, []any{"set", "$.asm." + k + ".l[0].v", g.pick("$.src.j", "$.src.t")})
+			} else {
+				plan = append(plan, []any{"set", "$.asm." + k, map[string]any{}}, []any{"set", "$.asm." + k + ".x.y", g.pick(int64(1), "s", nil, 1.5, []any{int64(1)})})
+			}
 			g.keys = append(g.keys, k)
 		case 1:
 			plan = append(plan, []any{"del", "$.asm." + g.key()})
